@@ -44,6 +44,10 @@ NOT_DECIDED = ('nesting of events across calls at run time; that the return even
                'agreement, not for pairing.')
 ASSUMPTIONS = ['the error segment of a generated function is what is emitted between put_label(<w>.error_label) and the end of the enclosing `if` (or the return label when emitted '
                'unconditionally); success code jumps over it', 'a CCodeWriter.put_trace_* method that is never called emits nothing']
+DECIDES += (' C45-CLOSEGATE (round 8): a closing macro (return / unwind) without any delivering call in a configuration block whose start macro delivers is reported exactly when some '
+            'emission path of that implementation (event sequences of C45-PAIR split by the emitted `#if CYTHON_USE_SYS_MONITORING` lines; statement nodes count for both) closes its '
+            'activation with that kind of event; closing definitions in nested #if blocks (per Python version) are evaluated against the start macros of the enclosing configuration. '
+            'C45-M2 evaluates version conditions (PY_VERSION_HEX compared with a constant) with one representative on each side of every threshold.')
 EXEMPT = {
     ('C45-PAIR', 'ModuleNode.ModuleNode.generate_module_init_func:code:error:no-exit'):
         'failed module import: the error path of the module init function reports PY_UNWIND but skips __Pyx_PyMonitoring_ExitScope; PyMonitoring_ExitScope() is a no-op in CPython '
@@ -92,6 +96,9 @@ MUTATIONS += [
 # second Enter in one #if variant / Enter behind a callback / Enter and Leave exchanged / Leave macro of one version variant without the decrement, storing the entering
 # constant, or forwarding to the entering API) and 5 behaviour-preserving rewrites (Leave in both branches, goto-cleanup, wrapper helpers, callbacks in a helper, macros renamed)
 # are kept under /verif/mutants/C45/h-* and p6-*.
+# Eighth round (session K3, seed C45l): C45-CLOSEGATE also decides a closing macro without any delivering call (it used to end in ANALYSIS-ERROR): reported when an
+# emission path of that implementation (sys.monitoring / legacy, by the emitted #if lines) closes its activation with it, passed over when none expands it; closing
+# definitions in nested #if blocks are evaluated against the start macros of the enclosing configuration.  Mutants: /verif/mutants/C45/l8-* (breaking), p8-* (rewrites).
 SILENT_EDITS = [   # behaviour-preserving, no new violation
     'ReturnStatNode: `tracing_on = profile or linetrace; if not (self.in_parallel or not tracing_on):` (De Morgan + local)  [C45-RETCOND]',
     'ReturnStatNode: `par = self.in_parallel; if par: pass / elif code.is_tracing():`  [C45-RETCOND]',
@@ -111,8 +118,9 @@ SILENT_EDITS = [   # behaviour-preserving, no new violation
 
 
 def run(ctx):
-    from ..rules import dD3
+    from ..rules import dD3, s8C45
     return [pC45.rule_guard(ctx), pC45.rule_pair(ctx), sC45.rule_return_conditions(ctx), pC45.rule_macros(ctx), pC45.rule_events(ctx),
             sC45.rule_args(ctx), sC45.rule_nogil(ctx), sC45.rule_window(ctx), sC45.rule_branch(ctx), sC45.rule_count(ctx), s4C45.rule_bracket(ctx),
             # round 6 (rules/dD3.py): SKIPSTART armed after the repair 74e3ab4c6; CLOSEGATE and DEFER report the known findings K17 / K18
-            dD3.rule_closegate(ctx), dD3.rule_defer(ctx), dD3.rule_skipstart(ctx)]
+            # round 8 (rules/s8C45.py): C45-CLOSEGATE = dD3.rule_closegate + the no-op closing macro decided against the emission paths of both implementations
+            s8C45.rule_closegate(ctx), dD3.rule_defer(ctx), dD3.rule_skipstart(ctx)]
